@@ -34,11 +34,12 @@ VARIABLES
     pend,     \* [pid -> [fid -> "started" | "recorded"]] results this process still owes
     fresh,    \* [pid -> file ids whose row this process has read since it last obtained their lock]
     gone,     \* pids that will never log again without having logged Exit (killed / panicked)
+    busy,     \* [pid -> targets this builder found locked by somebody else and has not examined under their lock since]
     bad       \* "" or why the last event breaks the protocol
 
-vars == <<l, lock, run, pend, fresh, gone, bad>>
+vars == <<l, lock, run, pend, fresh, gone, busy, bad>>
 
-Init == l = 1 /\ lock = << >> /\ run = << >> /\ pend = << >> /\ fresh = << >> /\ gone = {} /\ bad = ""
+Init == l = 1 /\ lock = << >> /\ run = << >> /\ pend = << >> /\ fresh = << >> /\ gone = {} /\ busy = << >> /\ bad = ""
 
 e == Rec[l]
 
@@ -79,8 +80,13 @@ Check ==
                              ELSE ""
       [] e.ev = "Rec"     -> IF MayTouch(e.pid, e.fid, e.unl, e.anc) THEN "" ELSE "result recorded without the lock"
       [] e.ev = "Commit"  -> ""
+      [] e.ev = "Busy"    -> ""
       [] e.ev = "Exit"    -> IF \E f \in DOMAIN lock : lock[f] = e.pid /\ Get(run, f, {}) # {}
                              THEN "process exits (dropping its locks) while a script it started is still running"
+                             \* builder.rs:759-765, 814-885: a target found locked is queued and decided later under its lock;
+                             \* a builder that reports success has done so for every one of them
+                             ELSE IF e.rc = 0 /\ Get(busy, e.pid, {}) # {}
+                             THEN "builder exits 0 although a target it found locked was never examined under its lock"
                              ELSE ""
       [] OTHER -> "unknown event"
 
@@ -126,6 +132,11 @@ Next ==
     /\ IF e.ev = "Reset" THEN fresh' = << >>
        ELSE IF e.ev = "Exit" THEN fresh' = Drop(fresh, e.pid)
        ELSE IF e.ev \in {"Take", "Load"} THEN TRUE ELSE UNCHANGED fresh
+    /\ busy' = IF e.ev = "Reset" THEN << >>
+               ELSE IF e.ev = "Busy" THEN Put(busy, e.pid, Get(busy, e.pid, {}) \cup {e.fid})
+               ELSE IF e.ev = "Take" THEN Put(busy, e.pid, Get(busy, e.pid, {}) \ {e.fid})
+               ELSE IF e.ev = "Exit" THEN Drop(busy, e.pid)
+               ELSE busy
 
 Spec == Init /\ [][Next]_vars
 
@@ -133,6 +144,6 @@ Accepted == bad = ""
 Mutex == \A f \in DOMAIN run : Cardinality(run[f]) <= 1
 
 View == <<l, bad>>
-Alias == [l |-> l, bad |-> bad, lock |-> lock, run |-> run, pend |-> pend, fresh |-> fresh,
+Alias == [l |-> l, bad |-> bad, lock |-> lock, run |-> run, pend |-> pend, fresh |-> fresh, busy |-> busy,
           ev |-> IF l > 1 /\ l <= Len(Rec) + 1 THEN Rec[l-1] ELSE << >>]
 =============================================================================
